@@ -4,7 +4,9 @@
 //! only through public constructors, never through tz-rs's parsers).
 
 use crate::tzif::{RawBlock, RawFile, RawSecond};
-use tz::timezone::{AlternateTime, Julian0WithLeap, Julian1WithoutLeap, LeapSecond, LocalTimeType, MonthWeekDay, RuleDay, TimeZone, Transition, TransitionRule};
+use tz::timezone::{AlternateTime, Julian0WithLeap, Julian1WithoutLeap, LeapSecond, LocalTimeType, MonthWeekDay, RuleDay, Transition, TransitionRule};
+#[cfg(feature = "tz-alloc")]
+use tz::timezone::TimeZone;
 
 // ---------------------------------------------------------------- escaping
 
@@ -465,7 +467,24 @@ impl ZoneSpec {
 
     /// By-construction expectation: the zone this spec encodes, built through public
     /// constructors. `Err(())` = some constructor refuses => decoding must refuse too.
+    #[cfg(feature = "tz-alloc")]
     pub fn expected(&self) -> Result<TimeZone, ()> {
+        let p = self.parts()?;
+        TimeZone::new(p.trans, p.types, p.leaps, p.rule).map_err(|_| ())
+    }
+
+    /// Would the public constructors accept this spec? (allocation-free API only, so the
+    /// generator takes the same decisions in every feature configuration)
+    pub fn valid(&self) -> bool {
+        match self.parts() {
+            Ok(p) => tz::timezone::TimeZoneRef::new(&p.trans, &p.types, &p.leaps, &p.rule).is_ok(),
+            Err(()) => false,
+        }
+    }
+
+    /// The parts of the zone this spec encodes, built through the allocation-free public
+    /// constructors (usable in every feature configuration).
+    pub fn parts(&self) -> Result<Parts, ()> {
         let mut types = Vec::new();
         for t in &self.types {
             let d = if t.desig.is_empty() { None } else { Some(&t.desig[..]) };
@@ -491,8 +510,16 @@ impl ZoneSpec {
                 Some(r.build().ok_or(())?)
             }
         };
-        TimeZone::new(trans, types, leaps, rule).map_err(|_| ())
+        Ok(Parts { trans, types, leaps, rule })
     }
+}
+
+/// Harness-owned parts of a zone (for `TimeZoneRef::new` over slices).
+pub struct Parts {
+    pub trans: Vec<Transition>,
+    pub types: Vec<LocalTimeType>,
+    pub leaps: Vec<LeapSecond>,
+    pub rule: Option<TransitionRule>,
 }
 
 /// A structurally valid but unrelated v1 block (the reader must not look at it).
